@@ -121,6 +121,10 @@ func (p *plainRequest) responseWritten() {
 	p.mutex.Unlock()
 }
 
+// sessionMutex makes the comparison and the removal of a session in Close one step: a connection with the
+// same addresses which is accepted in between (a controller reconnects from the same port) would lose its session.
+var sessionMutex sync.Mutex
+
 // NewConnection returns a hap connection.
 func NewConnection(connection net.Conn, context Context) *Connection {
 	conn := &Connection{
@@ -130,7 +134,10 @@ func NewConnection(connection net.Conn, context Context) *Connection {
 
 	// Setup new session for the connection
 	conn.session = NewSession(conn)
+
+	sessionMutex.Lock()
 	context.SetSessionForConnection(conn.session, conn)
+	sessionMutex.Unlock()
 
 	return conn
 }
@@ -314,9 +321,11 @@ func (con *Connection) Close() error {
 
 	// Remove the session from the context – unless it was replaced by the session of a
 	// newer connection with the same addresses, which is still in use
+	sessionMutex.Lock()
 	if con.context.GetSessionForConnection(con.connection) == con.session {
 		con.context.DeleteSessionForConnection(con.connection)
 	}
+	sessionMutex.Unlock()
 
 	return con.connection.Close()
 }
